@@ -395,6 +395,45 @@ fn dispatch(name: &str, a: &mut Args) -> String {
 		},
 		"node_announcement_probe" => node_announcement_probe(a),
 		"node_announcement_addr_probe" => node_announcement_addr_probe(a),
+		"channel_config_roundtrip" => {
+			// <prop> <base> <cltv delta> <force close fee> <accept underpaying> <dust kind 0 fixed / 1 multiplier> <dust value>
+			use lightning::util::config::{ChannelConfig, MaxDustHTLCExposure};
+			use lightning::util::ser::{Readable, Writeable};
+			let cfg = ChannelConfig {
+				forwarding_fee_proportional_millionths: a.u32(),
+				forwarding_fee_base_msat: a.u32(),
+				cltv_expiry_delta: a.u16(),
+				force_close_avoidance_max_fee_satoshis: a.u64(),
+				accept_underpaying_htlcs: a.bool(),
+				max_dust_htlc_exposure: if a.u8() == 0 { MaxDustHTLCExposure::FixedLimitMsat(a.u64()) } else { MaxDustHTLCExposure::FeeRateMultiplier(a.u64()) },
+			};
+			match <ChannelConfig as Readable>::read(&mut &cfg.encode()[..]) {
+				Ok(b) => {
+					let (k, v) = match b.max_dust_htlc_exposure { MaxDustHTLCExposure::FixedLimitMsat(v) => (0, v), MaxDustHTLCExposure::FeeRateMultiplier(v) => (1, v) };
+					format!("1 {} {} {} {} {} {} {}", b.forwarding_fee_proportional_millionths, b.forwarding_fee_base_msat, b.cltv_expiry_delta,
+						b.force_close_avoidance_max_fee_satoshis, b.accept_underpaying_htlcs as u8, k, v)
+				},
+				Err(_) => "0 0 0 0 0 0 0 0".to_string(),
+			}
+		},
+		"channel_update_info_roundtrip" => {
+			// <last_update> <cltv delta> <htlc min> <htlc max> <enabled>
+			use lightning::routing::gossip::{ChannelUpdateInfo, RoutingFees};
+			use lightning::util::ser::{Readable, Writeable};
+			let info = ChannelUpdateInfo {
+				last_update: a.u32(),
+				cltv_expiry_delta: a.u16(),
+				htlc_minimum_msat: a.u64(),
+				htlc_maximum_msat: a.u64(),
+				enabled: a.bool(),
+				fees: RoutingFees { base_msat: 3, proportional_millionths: 4 },
+				last_update_message: None,
+			};
+			match <ChannelUpdateInfo as Readable>::read(&mut &info.encode()[..]) {
+				Ok(b) => format!("1 {} {} {} {} {}", b.last_update, b.cltv_expiry_delta, b.htlc_minimum_msat, b.htlc_maximum_msat, b.enabled as u8),
+				Err(_) => "0 0 0 0 0 0".to_string(),
+			}
+		},
 		"claimable_htlc_roundtrip" => {
 			// <value> <sender_intended> <total> <trv?> <trv> <cltv> <skimmed?> <skimmed> <keysend> <payment_data>
 			let (v, siv, total) = (a.u64(), a.u64(), a.u64());
